@@ -179,7 +179,14 @@ func checkCondProtocol(r *Reporter, p *Prog, pkg string, conds []condInfo, minWa
 				if loopCond != nil {
 					pred = exprKey(loopCond)
 				}
-				r.Pass("cond/wait-in-loop-under-locker", key, p.posStr(c.Pos()), "in a loop on "+pred+" with "+ci.Locker+" held")
+				// ... and held CONTINUOUSLY from the test of the predicate to Wait: a release in between
+				// (directly or inside a helper called in the loop before the Wait) lets a signaller change
+				// the state and signal while nobody is parked - the waiter then parks on a stale test
+				if rel := releasedBeforeWait(p, pkg, info, fd, c, bp+"."+ci.Locker, ci.Locker); rel != "" {
+					r.Fail("cond/wait-in-loop-under-locker", key, p.posStr(c.Pos()), "the Locker "+ci.Locker+" is released between the test of the predicate and Wait ("+rel+"): a state change and its wake-up that fall into the gap are missed, the waiter parks although its predicate no longer holds (lost wake-up)")
+				} else {
+					r.Pass("cond/wait-in-loop-under-locker", key, p.posStr(c.Pos()), "in a loop on "+pred+" with "+ci.Locker+" held")
+				}
 			}
 		})
 		// (4) signals: each enclosing function body (declaration or literal) separately
@@ -324,6 +331,114 @@ func checkCondProtocol(r *Reporter, p *Prog, pkg string, conds []condInfo, minWa
 	if nSignals < minSignals {
 		r.Fail("cond/signal-after-section", pkg, "-", fmt.Sprintf("expected at least %d Signal/Broadcast sites, found %d (vacuous)", minSignals, nSignals))
 	}
+}
+
+// releasedBeforeWait: inside the innermost for loop around the Wait call, lexically before the Wait
+// (loop condition included), is the Cond's Locker released - by an Unlock of lockerPath, or by a call
+// of a function of the package on the same base object whose body (to depth 3) unlocks that field of
+// its receiver? Returns where, or "".
+func releasedBeforeWait(p *Prog, pkg string, info *types.Info, fd *ast.FuncDecl, wait *ast.CallExpr, lockerPath, locker string) string {
+	var loop *ast.ForStmt
+	ast.Inspect(fd.Body, func(m ast.Node) bool {
+		if fs, ok := m.(*ast.ForStmt); ok && fs.Body.Pos() <= wait.Pos() && wait.End() <= fs.Body.End() {
+			loop = fs
+		}
+		return true
+	})
+	if loop == nil {
+		return ""
+	}
+	base := strings.TrimSuffix(lockerPath, "."+locker)
+	di := p.decls()
+	var releases func(cd *ast.FuncDecl, depth int, seen map[*ast.FuncDecl]bool) bool
+	releases = func(cd *ast.FuncDecl, depth int, seen map[*ast.FuncDecl]bool) bool {
+		if cd == nil || cd.Body == nil || depth <= 0 || seen[cd] {
+			return false
+		}
+		seen[cd] = true
+		ro := recvObj(info, cd)
+		if ro == nil {
+			return false
+		}
+		rp := fmt.Sprintf("%s@%d", ro.Name(), ro.Pos())
+		hit := false
+		ast.Inspect(cd.Body, func(n ast.Node) bool {
+			cl, ok := n.(*ast.CallExpr)
+			if !ok || hit {
+				return !hit
+			}
+			if op, path := lockOp(info, cl); (op == "Unlock" || op == "RUnlock") && path == rp+"."+locker {
+				hit = true
+				return false
+			}
+			if se, ok := ast.Unparen(cl.Fun).(*ast.SelectorExpr); ok {
+				if b2, okp := pathOf(info, se.X); okp && b2 == rp {
+					if fn, _ := info.Uses[se.Sel].(*types.Func); fn != nil {
+						if sub := di.byFunc[fn.Origin()]; sub != nil && di.infoOf[sub] == info && releases(sub, depth-1, seen) {
+							hit = true
+						}
+					}
+				}
+			}
+			return !hit
+		})
+		return hit
+	}
+	where := ""
+	// a release counts only if the Wait can be reached from it without the predicate being tested again
+	f := newFuncCFGPlain(p, info, fd.Body, "")
+	reachesWait := func(cl *ast.CallExpr) bool {
+		pt, ok := f.PointOf(cl)
+		if !ok {
+			return true
+		}
+		_, found := f.reach(Point{pt.B, pt.I + 1}, &searchOpts{AvoidNode: func(n ast.Node) bool { return loop.Cond != nil && n == ast.Node(loop.Cond) }}, func(q Point, atExit bool) bool {
+			if atExit {
+				return false
+			}
+			hit := false
+			inspectNoLit(f.nodeAt(q), func(m ast.Node) bool {
+				if m == ast.Node(wait) {
+					hit = true
+				}
+				return !hit
+			})
+			return hit
+		})
+		return found
+	}
+	visit := func(root ast.Node) {
+		if root == nil {
+			return
+		}
+		ast.Inspect(root, func(n ast.Node) bool {
+			if _, isLit := n.(*ast.FuncLit); isLit {
+				return false
+			}
+			cl, ok := n.(*ast.CallExpr)
+			if !ok || where != "" || cl.Pos() >= wait.Pos() {
+				return where == ""
+			}
+			if op, path := lockOp(info, cl); (op == "Unlock" || op == "RUnlock") && path == lockerPath && reachesWait(cl) {
+				where = p.posStr(cl.Pos()) + ": " + exprKey(cl)
+				return false
+			}
+			if se, ok := ast.Unparen(cl.Fun).(*ast.SelectorExpr); ok {
+				if b2, okp := pathOf(info, se.X); okp && b2 == base {
+					if fn, _ := info.Uses[se.Sel].(*types.Func); fn != nil {
+						if sub := di.byFunc[fn.Origin()]; sub != nil && di.infoOf[sub] == info && releases(sub, 3, map[*ast.FuncDecl]bool{}) && reachesWait(cl) {
+							where = p.posStr(cl.Pos()) + ": " + exprKey(cl.Fun) + " unlocks " + locker
+							return false
+						}
+					}
+				}
+			}
+			return true
+		})
+	}
+	visit(loop.Cond)
+	visit(loop.Body)
+	return where
 }
 
 // summariseLockers: "Type.method" -> locker field, for methods that acquire <recv>.<field>
